@@ -386,7 +386,7 @@ def fteik2d(slow, dz, dx, zsrc, xsrc, nsweep=2, grad=False):
                     zsi + 1, j - 1, dz, dx, zsa, xsa, vzero
                 )
                 t0c, tzc, txc = t_anad(zsi + 1, j, dz, dx, zsa, xsa, vzero)
-                tt[zsi + 1, j] = delta(
+                tnew = delta(
                     tt[zsi + 1, j],
                     tauv,
                     taue,
@@ -403,16 +403,18 @@ def fteik2d(slow, dz, dx, zsrc, xsrc, nsweep=2, grad=False):
                     1,
                     1,
                 )
-                if grad:
-                    ttsgn[zsi + 1, j, 0] = 1
-                    ttsgn[zsi + 1, j, 1] = 1
+                if tnew >= tt[zsi + 1, j - 1] and tnew >= td[j]:
+                    tt[zsi + 1, j] = tnew
+                    if grad:
+                        ttsgn[zsi + 1, j, 0] = 1
+                        ttsgn[zsi + 1, j, 1] = 1
 
             if dzu > 0.0 and tt[zsi, j - 1] < Big:
                 dzi = 1.0 / (dzu * dz)
                 dz2i = dzi / (dzu * dz)
                 taue = tt[zsi, j - 1] - t_ana(zsi, j - 1, dz, dx, zsa, xsa, vzero)
                 t0c, tzc, txc = t_anad(zsi, j, dz, dx, zsa, xsa, vzero)
-                tt[zsi, j] = delta(
+                tnew = delta(
                     tt[zsi, j],
                     tauv,
                     taue,
@@ -429,9 +431,11 @@ def fteik2d(slow, dz, dx, zsrc, xsrc, nsweep=2, grad=False):
                     -1,
                     1,
                 )
-                if grad:
-                    ttsgn[zsi, j, 0] = -1
-                    ttsgn[zsi, j, 1] = 1
+                if tnew >= tt[zsi, j - 1] and tnew >= td[j]:
+                    tt[zsi, j] = tnew
+                    if grad:
+                        ttsgn[zsi, j, 0] = -1
+                        ttsgn[zsi, j, 1] = 1
 
         td[xsi] = vzero * dxw * dx
         for j in range(xsi - 1, -1, -1):
@@ -447,7 +451,7 @@ def fteik2d(slow, dz, dx, zsrc, xsrc, nsweep=2, grad=False):
                     zsi + 1, j + 1, dz, dx, zsa, xsa, vzero
                 )
                 t0c, tzc, txc = t_anad(zsi + 1, j, dz, dx, zsa, xsa, vzero)
-                tt[zsi + 1, j] = delta(
+                tnew = delta(
                     tt[zsi + 1, j],
                     tauv,
                     taue,
@@ -464,18 +468,18 @@ def fteik2d(slow, dz, dx, zsrc, xsrc, nsweep=2, grad=False):
                     1,
                     -1,
                 )
-                if grad:
-                    ttsgn[zsi + 1, j, 0] = 1
-                    ttsgn[zsi + 1, j, 1] = -1
+                if tnew >= tt[zsi + 1, j + 1] and tnew >= td[j]:
+                    tt[zsi + 1, j] = tnew
+                    if grad:
+                        ttsgn[zsi + 1, j, 0] = 1
+                        ttsgn[zsi + 1, j, 1] = -1
 
-            if dzu > 0.0 and tt[zsi + 1, j + 1] < Big:
+            if dzu > 0.0 and tt[zsi, j + 1] < Big:
                 dzi = 1.0 / (dzu * dz)
                 dz2i = dzi / (dzu * dz)
-                taue = tt[zsi + 1, j + 1] - t_ana(
-                    zsi + 1, j + 1, dz, dx, zsa, xsa, vzero
-                )
+                taue = tt[zsi, j + 1] - t_ana(zsi, j + 1, dz, dx, zsa, xsa, vzero)
                 t0c, tzc, txc = t_anad(zsi, j, dz, dx, zsa, xsa, vzero)
-                tt[zsi, j] = delta(
+                tnew = delta(
                     tt[zsi, j],
                     tauv,
                     taue,
@@ -492,9 +496,11 @@ def fteik2d(slow, dz, dx, zsrc, xsrc, nsweep=2, grad=False):
                     -1,
                     -1,
                 )
-                if grad:
-                    ttsgn[zsi, j, 0] = -1
-                    ttsgn[zsi, j, 1] = -1
+                if tnew >= tt[zsi, j + 1] and tnew >= td[j]:
+                    tt[zsi, j] = tnew
+                    if grad:
+                        ttsgn[zsi, j, 0] = -1
+                        ttsgn[zsi, j, 1] = -1
 
         dzi = 1.0 / dz
         dz2i = dzi / dz
@@ -513,7 +519,7 @@ def fteik2d(slow, dz, dx, zsrc, xsrc, nsweep=2, grad=False):
                     i - 1, xsi + 1, dz, dx, zsa, xsa, vzero
                 )
                 t0c, tzc, txc = t_anad(i, xsi + 1, dz, dx, zsa, xsa, vzero)
-                tt[i, xsi + 1] = delta(
+                tnew = delta(
                     tt[i, xsi + 1],
                     tauv,
                     taue,
@@ -530,16 +536,18 @@ def fteik2d(slow, dz, dx, zsrc, xsrc, nsweep=2, grad=False):
                     1,
                     1,
                 )
-                if grad:
-                    ttsgn[i, xsi + 1, 0] = 1
-                    ttsgn[i, xsi + 1, 1] = 1
+                if tnew >= tt[i - 1, xsi + 1] and tnew >= td[i]:
+                    tt[i, xsi + 1] = tnew
+                    if grad:
+                        ttsgn[i, xsi + 1, 0] = 1
+                        ttsgn[i, xsi + 1, 1] = 1
 
             if dxw > 0.0 and tt[i - 1, xsi] < Big:
                 dxi = 1.0 / (dxw * dx)
                 dx2i = dxi / (dxw * dx)
                 tauv = tt[i - 1, xsi] - t_ana(i - 1, xsi, dz, dx, zsa, xsa, vzero)
                 t0c, tzc, txc = t_anad(i, xsi, dz, dx, zsa, xsa, vzero)
-                tt[i, xsi] = delta(
+                tnew = delta(
                     tt[i, xsi],
                     tauv,
                     taue,
@@ -556,9 +564,11 @@ def fteik2d(slow, dz, dx, zsrc, xsrc, nsweep=2, grad=False):
                     1,
                     -1,
                 )
-                if grad:
-                    ttsgn[i, xsi, 0] = 1
-                    ttsgn[i, xsi, 1] = -1
+                if tnew >= tt[i - 1, xsi] and tnew >= td[i]:
+                    tt[i, xsi] = tnew
+                    if grad:
+                        ttsgn[i, xsi, 0] = 1
+                        ttsgn[i, xsi, 1] = -1
 
         td[zsi] = vzero * dzu * dz
         for i in range(zsi - 1, -1, -1):
@@ -574,7 +584,7 @@ def fteik2d(slow, dz, dx, zsrc, xsrc, nsweep=2, grad=False):
                     i + 1, xsi + 1, dz, dx, zsa, xsa, vzero
                 )
                 t0c, tzc, txc = t_anad(i, xsi + 1, dz, dx, zsa, xsa, vzero)
-                tt[i, xsi + 1] = delta(
+                tnew = delta(
                     tt[i, xsi + 1],
                     tauv,
                     taue,
@@ -591,16 +601,18 @@ def fteik2d(slow, dz, dx, zsrc, xsrc, nsweep=2, grad=False):
                     -1,
                     1,
                 )
-                if grad:
-                    ttsgn[i, xsi + 1, 0] = -1
-                    ttsgn[i, xsi + 1, 1] = 1
+                if tnew >= tt[i + 1, xsi + 1] and tnew >= td[i]:
+                    tt[i, xsi + 1] = tnew
+                    if grad:
+                        ttsgn[i, xsi + 1, 0] = -1
+                        ttsgn[i, xsi + 1, 1] = 1
 
             if dxw > 0.0 and tt[i + 1, xsi] < Big:
                 dxi = 1.0 / (dxw * dx)
                 dx2i = dxi / (dxw * dx)
                 tauv = tt[i + 1, xsi] - t_ana(i + 1, xsi, dz, dx, zsa, xsa, vzero)
                 t0c, tzc, txc = t_anad(i, xsi, dz, dx, zsa, xsa, vzero)
-                tt[i, xsi] = delta(
+                tnew = delta(
                     tt[i, xsi],
                     tauv,
                     taue,
@@ -617,9 +629,11 @@ def fteik2d(slow, dz, dx, zsrc, xsrc, nsweep=2, grad=False):
                     -1,
                     -1,
                 )
-                if grad:
-                    ttsgn[i, xsi, 0] = -1
-                    ttsgn[i, xsi, 1] = -1
+                if tnew >= tt[i + 1, xsi] and tnew >= td[i]:
+                    tt[i, xsi] = tnew
+                    if grad:
+                        ttsgn[i, xsi, 0] = -1
+                        ttsgn[i, xsi, 1] = -1
 
     else:
         tt[int(zsa), int(xsa)] = 0.0
